@@ -290,6 +290,8 @@ inline std::vector<double> alphabet(const std::string &name) {
     // fixed menus of pseudo-random weightings: "R9x4" = 4 weightings per graph with weights 1..9 from a deterministic LCG.
     // A menu is a finite list enumerated completely on every run (a fixed corpus, not a sample drawn at run time).
     if (name.size() >= 4 && name[0] == 'R' && name.find('x') != std::string::npos) { int k = atoi(name.c_str() + 1), cnt = atoi(name.c_str() + name.find('x') + 1); return {-1000.0 - k, (double) cnt}; }
+    if (name == "H2") return {1, 100};                 // extreme ratio: adversarial for approximation guarantees
+    if (name == "OH") return {-500};                   // "one heavy edge": m weightings, edge idx weighs 1000, the others 1 + (j mod 2)
     if (name == "P") return {1, 2, 4, 8, 16, 32, 64, 128, 256, 512, 1024, 2048, 4096, 8192, 16384, 32768, 65536, 131072, 262144, 524288, 1048576};
     fprintf(stderr, "unknown alphabet %s\n", name.c_str()); exit(2);
 }
@@ -298,6 +300,7 @@ inline bool is_random_menu(const std::vector<double> &A) { return A.size() == 2 
 // number of weightings of an m-edge graph over alphabet A
 inline uint64_t num_weightings(const std::vector<double> &A, int m) {
     if (is_random_menu(A)) return (uint64_t) A[1];
+    if (A.size() == 1 && A[0] == -500) return (uint64_t) std::max(m, 1);
     if (A.size() == 1 && A[0] < 0) return 1;
     return ipow(A.size(), m);
 }
@@ -305,6 +308,7 @@ inline uint64_t num_weightings(const std::vector<double> &A, int m) {
 inline void weighting(const std::vector<double> &A, int m, uint64_t idx, std::vector<double> &w) {
     w.resize(m);
     if (is_random_menu(A)) { int k = (int) (-A[0] - 1000); uint64_t st = 0x9e3779b97f4a7c15ull ^ (idx * 1000003ull + (uint64_t) m * 7919ull); lcg_next(st); for (int i = 0; i < m; ++i) w[i] = 1 + (double) (lcg_next(st) % (uint64_t) k); return; }
+    if (A.size() == 1 && A[0] == -500) { for (int i = 0; i < m; ++i) w[i] = 1 + i % 2; if (m > 0) w[idx % (uint64_t) m] = 1000; return; }
     if (A.size() == 1 && A[0] < 0) { int k = (int) -A[0]; for (int i = 0; i < m; ++i) w[i] = 1 + i % k; return; }
     for (int i = 0; i < m; ++i) { w[i] = A[idx % A.size()]; idx /= A.size(); }
 }
